@@ -110,7 +110,9 @@ CHECKS = {
             "models attain their boundary temperatures and stay between them; the plate-model series vanishes at depth 0 and max "
             "depth (boundary temperatures attained); mass conserving slab (half-space reference): on and below the slab top the "
             "temperature lies between the model's minimum temperature and the background, and equals the minimum temperature on the "
-            "slab top; the McKenzie series of the slab plate model vanishes on both slab surfaces; every truncated plate series stays "
+            "slab top; above the slab top (both reference models) the Gaussian heat deficit never heats and never cools below the minimum "
+            "temperature - 1e-16 (C20_mass_conserving_top_side; premise: non-positive top heat content, which the code enforces with its min()); "
+            "the McKenzie series of the slab plate model vanishes on both slab surfaces; every truncated plate series stays "
             "within (bottom - top) x the amplitude sum of its terms of [top, bottom] (C20_plate_series_overshoot), for the constant-age "
             "model at most n*(2/pi)*exp(-pi^2*kappa*age/max_depth^2) (C20_constant_age_overshoot), for the ridge-age model with the first term's exponent (C20_ridge_age_overshoot); the bound is checked on every plate-model ladder. "
             "Not proved (false for a truncated series near the ridge, known finding D15 for kappa*age/max_depth^2 < 1e-3): the strict "
